@@ -2,6 +2,7 @@ import FractopoModel.Generated.IntersectsLoop
 import FractopoModel.Model.Relationships
 import FractopoModel.Generated.DetermineIntersect
 import FractopoModel.Generated.RelationshipLoop
+import FractopoModel.Generated.NetworkInit
 /-!
 # C12 — cross-cut / abutting relationship counts
 -/
@@ -210,5 +211,16 @@ theorem C12_generated_intersects_rows (touches1 touches2 : N → Bool) (intersec
   cases (List.zip ns cs).any (fun x => !touches1 x.1 && !touches2 x.1) <;> rfl
 
 end IntersectsLoop
+
+/-- **The relationships of a Network are computed from its own set assignment.** In the regenerated `Network.__post_init__` (the defensive copy an explicit parameter)
+the frame into which a Network writes its azimuth-set column -- the column `azimuth_set_relationships` groups by -- is a function of the COPY of the caller's frame only: an
+earlier analysis of the same caller's frame with other sets cannot leak into it. (S12-relations analyses every frame once before with other sets.) -/
+theorem C12_network_sets_from_a_copy {G' A' : Type} (area_is_empty : A' → Bool) (copy_ : List G' → List G') (has_z : List G' → Bool) (drop_z : List G' → List G')
+    (crop_ : List G' → A' → Bool → List G') (given : Bool) (traces traces' : List G') (area : A') (truncate circular topo rz : Bool)
+    (h : copy_ traces = copy_ traces') :
+    Gen.network_init area_is_empty copy_ has_z drop_z crop_ given traces area truncate circular topo rz () () =
+      Gen.network_init area_is_empty copy_ has_z drop_z crop_ given traces' area truncate circular topo rz () () := by
+  unfold Gen.network_init
+  simp only [h]
 
 end C12
